@@ -151,21 +151,40 @@ func ruleR18_3(w *World, r *Report) {
 		}
 	}
 	r.Check(pf != "" && pf == sf && okOps, "topic format agreement", u.Pos(sub.Pos()), pf, fmt.Sprintf("the server publishes on %q, the client subscribes to %q (operands collection/key: %v)", pf, sf, okOps))
+	// the receiver inverts the format: the key is everything after "<collection>/" (a key may itself contain '/')
 	okKey := false
-	for _, c := range callsNamed(rcv, "Split") {
-		if k, ok := c.Common().Args[1].(*ssa.Const); ok {
-			if s, _ := unquoteConst(k); s == "/" {
-				okKey = true
+	seen := ""
+	forEachInstr(rcv, func(in ssa.Instruction) {
+		l, ok := in.(*ssa.Lookup)
+		if !ok || mapFieldOf(l.X) != "DatatypeManager.dataMap" {
+			return
+		}
+		seen = canonName(l.Index)
+		switch x := l.Index.(type) {
+		case *ssa.Call:
+			if calleeName(x) == "TrimPrefix" && len(x.Call.Args) == 2 && canonName(x.Call.Args[0]) == "$1" {
+				p := canonName(x.Call.Args[1])
+				if strings.HasSuffix(p, `.Collection+"/")`) {
+					okKey = true
+				}
+			}
+		default:
+			// strings.SplitN(topic, "/", 2)[1]
+			for _, c := range callsNamed(rcv, "SplitN") {
+				a := c.Common().Args
+				if len(a) == 3 && canonName(a[0]) == "$1" {
+					sep, isS := a[1].(*ssa.Const)
+					n, isN := constInt(a[2])
+					if isS && isN && n == 2 && strings.HasSuffix(seen, ")[1]") {
+						if sv, _ := unquoteConst(sep); sv == "/" {
+							okKey = true
+						}
+					}
+				}
 			}
 		}
-	}
-	okIdx := false
-	forEachInstr(rcv, func(in ssa.Instruction) {
-		if l, ok := in.(*ssa.Lookup); ok && strings.HasSuffix(canonName(l.Index), `)[1]`) && mapFieldOf(l.X) == "DatatypeManager.dataMap" {
-			okIdx = true
-		}
 	})
-	r.Check(okKey && okIdx, "ReceiveNotification/key = second topic segment", u.Pos(rcv.Pos()), `strings.Split(topic, "/")[1]`, "the receiver does not look the datatype up by the second segment of the topic")
+	r.Check(okKey, "ReceiveNotification/key = topic without the collection prefix", u.Pos(rcv.Pos()), `strings.TrimPrefix(topic, collection+"/")`, "the receiver looks the datatype up by "+seen+", which is not the inverse of the topic format <collection>/<key>: a key that contains '/' is cut (F32), or the wrong part of the topic is used")
 }
 
 // R18.4 own notifications are ignored, others sync iff behind
@@ -394,6 +413,25 @@ func semaSection(u *Universe, r *Report, fn *ssa.Function, owner, acquire string
 			}
 		}
 		r.Check(good, owner+"/re-check after release", u.Pos(def.Pos()), "Release, then NeedPush -> DeliverTransaction", "after releasing the semaphore the manager does not re-check NeedPush and re-deliver: operations issued while a sync was running are never pushed")
+		// the semaphore is shared by all datatypes of the client: the re-check looks at every registered datatype,
+		// not only at the one that has just synced (F33)
+		all := false
+		seen := ""
+		if mc != nil {
+			df := mc.Fn.(*ssa.Function)
+			for _, c := range callsNamed(df, "NeedPush") {
+				recv, _ := recvAndArgs(c)
+				o := origins(recv)
+				seen = canonName(recv)
+				if o.has("field:DatatypeManager.dataMap") || strings.Contains(seen, "dataMap") {
+					all = true
+				}
+			}
+			if len(callsNamed(df, "needPush")) > 0 {
+				all = true
+			}
+		}
+		r.Check(all, owner+"/re-check covers every datatype", u.Pos(def.Pos()), "NeedPush asked of the datatypes in dataMap", "after releasing the shared semaphore only "+seen+" is asked NeedPush: the delivery of another datatype that gave up at TryAcquire meanwhile is never repeated, its operations stay unpushed until the next local operation or Sync() (F33)")
 	}
 }
 
